@@ -394,6 +394,10 @@ func c18Backend(w *World, b *Backend, r *Result) {
 		nsub := strings.Count(txt, "$(")
 		inSub := true
 		for _, h := range sc.Holes {
+			// the pipeline's own holes (program name, arguments); the name of the helper variable is not data
+			if cls := classOfOrigin(h.Origin, ""); cls != ClsStr && cls != ClsProg {
+				continue
+			}
 			if !h.Numeric && !strings.Contains(h.Stack, "cmd>dq>cmd") {
 				inSub = false
 			}
